@@ -64,6 +64,7 @@ type Op struct {
 	Ok      bool   `json:"ok"`
 	New     int    `json:"new,omitempty"`
 	Probe   bool   `json:"probe,omitempty"` // growth: outcome not specified (only well-formedness is checked)
+	Cls     string `json:"cls,omitempty"`   // third round: class of a refused request (request kind x argument kinds)
 }
 
 // Key identifies the request (without outcome).
@@ -84,6 +85,9 @@ type Sess struct {
 	// growth
 	syncMade map[int]bool
 	syncGen  int
+	// third round: repos listed by the server when the session started (MarkBaseline)
+	Baseline map[string]bool
+	Passcode string // third round: passcode of the repos this session makes ("" = none)
 }
 
 // Step records one request and its answer.
@@ -117,6 +121,8 @@ func (s *Sess) concreteUUIDArg(u string) (string, bool) {
 			return s.UUIDs[k-1], true
 		}
 		return s.bogus, true
+	case IsOddArg(u):
+		return s.oddArg(u), true
 	default:
 		h, ok := s.Pool[u]
 		if !ok {
@@ -168,6 +174,9 @@ func (s *Sess) Apply(op Op) (accepted bool, status int, err error) {
 		if u, ok := s.concreteUUIDArg(op.UUID); ok {
 			m["root"] = u
 		}
+		if s.Passcode != "" {
+			m["passcode"] = s.Passcode
+		}
 		b, _ := json.Marshal(m)
 		r, err = s.HTTP("POST", "/api/repos", b)
 		if err != nil {
@@ -196,12 +205,14 @@ func (s *Sess) Apply(op Op) (accepted bool, status int, err error) {
 		m := map[string]string{"note": newNote}
 		if op.Op == "tag" {
 			u, _ := s.concreteUUIDArg(op.Tag)
-			m["tag"] = u
+			if op.Tag != "empty" { // the odd argument "empty" of a tag request: no tag field at all
+				m["tag"] = u
+			}
 		} else if u, ok := s.concreteUUIDArg(op.UUID); ok {
 			m["uuid"] = u
 		}
 		if op.Op == "branch" {
-			m["branch"] = op.Branch
+			m["branch"] = s.branchArg(op.Branch)
 		}
 		b, _ := json.Marshal(m)
 		r, err = s.HTTP("POST", "/api/node/"+s.NodeUUID(op.Node)+"/"+op.Op, b)
@@ -210,9 +221,10 @@ func (s *Sess) Apply(op Op) (accepted bool, status int, err error) {
 		}
 		if r.Status == 200 {
 			var out struct{ Child string }
-			if json.Unmarshal(r.Bytes(), &out) != nil || out.Child == "" {
+			if json.Unmarshal(r.Bytes(), &out) != nil || (out.Child == "" && !IsOddArg(op.Tag) && !IsOddArg(op.UUID)) {
 				return false, r.Status, fmt.Errorf("bad %s response %q", op.Op, r.Bytes())
 			}
+			// (an accepted request with an odd argument may name its child "": reported by the caller)
 			s.UUIDs = append(s.UUIDs, out.Child)
 			return true, 200, nil
 		}
@@ -249,9 +261,11 @@ func (s *Sess) Apply(op Op) (accepted bool, status int, err error) {
 			return true, 200, nil
 		}
 		return false, r.Status, nil
+	case "mergebadtype", "nodenote", "deleterepowrong":
+		return s.applyOdd(op)
 	case "deleterepo":
 		u := s.NodeUUID(op.Node)
-		err = s.N.Call("ds.deleterepo", map[string]string{"UUID": u, "Passcode": ""}, nil)
+		err = s.N.Call("ds.deleterepo", map[string]string{"UUID": u, "Passcode": s.Passcode}, nil)
 		s.Script = append(s.Script, Step{Method: "CALL", URL: "ds.deleterepo " + u, Resp: fmt.Sprint(err)})
 		if err != nil {
 			if _, ok := err.(*node.CallError); ok {
